@@ -7,19 +7,23 @@ import GoSQLXModel.Gen.PrintPrec
 > and parses to a tree equal to the original up to the letter case of keywords and operator words (…). Formatting
 > already formatted output returns it unchanged.
 
-Model: `Model/PrintExpr.lean` — `operandSQL`'s rule (parenthesise iff `p < parent || (p = parent && (right || parent = 4))`)
-applied by `printG` to the model grammar of the expression ladder.
-* `print_eq_render`: the serialiser writes exactly the reference rendering `render 1` (minimal parentheses);
-* `print_parse`: hence, with `parse_render` (C03), every expression the serialiser writes is read back as the same tree,
-  for every tree of the ladder — whatever the operators, nesting and associativity;
-* stability: the written text depends on the tree only (`printG` is a function of the tree), so writing the re-parsed
-  tree gives the same text (`print_parse` + congruence).
+Model: `Model/PrintExpr.lean` — the rules of pkg/sql/ast/sql.go on the expression ladder: `operandSQL` (parenthesise iff
+`p < parent || (p = parent && (right || parent = 4))`) as used by `BinaryExpression.SQL` (both operands, the operator's
+strength; IS NULL: the left operand; LIKE / ILIKE: the pattern at strength 9), `UnaryExpression.SQL` (NOT),
+`BetweenExpression.SQL` (three operands at (4, right)), `InExpression.SQL` (tested expression at (4, right), values bare),
+`FunctionCall.SQL` (arguments bare), keywords in the serialiser's fixed spelling — applied by `printG` to the reference
+grammar.
+* `print_eq_render`: the serialiser writes exactly the reference rendering `render 1` (minimal parentheses) of the
+  tree with its keywords in the fixed spelling (`kwNorm`);
+* `print_parse`: hence, with `parse_render` (C03), every expression the serialiser writes is read back as that tree,
+  which is the original up to the letter case of LIKE / ILIKE (`print_parse_same_tree`) — for every well-formed tree of
+  the grammar, whatever the operators, predicates, calls, nesting and associativity;
+* `print_stable`: the tree read back is written as the same text (formatting formatted output changes nothing).
 Obligation on the regenerated precedence table of the serialiser (`sqlOperatorPrecedence`): every operator spelling has
 the strength of its class (`gen_prec_table`), which is what connects spellings to `Op.prec`.
 
-**Partial**: only the operator ladder is modelled. Predicates (BETWEEN/IN/LIKE/IS NULL), function calls, CASE, clauses,
-statements, the formatting options and the three other serialisers (Format, formatter, CLI) are decided by the
-round-trip oracle on generated statements and the corpora.
+**Partial**: CASE, CAST, sub-queries, clauses, statements, the formatting options and the three other serialisers
+(Format, formatter, CLI) are decided by the round-trip oracle on generated statements and the corpora.
 -/
 namespace GoSQLXModel.Props.C06
 open GoSQLXModel GoSQLXModel.ExprParse
@@ -33,12 +37,16 @@ theorem gen_prec_table :
     Gen.Print.precDefault = 8 := by decide +kernel
 
 /-- **C06 (expression core)**: written, then read: the same tree -/
-theorem written_expression_reads_back (g : G) (X : List PTok) (hp : PrimStop X) (hn : N1 X) (hd : need 1 g + 1 ≤ maxDepth) :
-    ∃ f0, ∀ f, f0 ≤ f → pExpr f 0 (printG g ++ X) = .ok g.toEx X :=
-  print_parse g X hp hn hd
+theorem written_expression_reads_back (g : G) (hw : g.WF = true) (X : List PTok) (hp : PrimStop X) (hn : N1 X)
+    (hd : need 1 g + 1 ≤ maxDepth) :
+    (∃ f0, ∀ f, f0 ≤ f → pExpr f 0 (printG g ++ X) = .ok (kwNorm g).toEx X) ∧ (kwNorm g).toEx.norm = g.toEx.norm :=
+  ⟨print_parse g hw X hp hn hd, print_parse_same_tree g⟩
+
+/-- formatting what was formatted changes nothing: the tree read back is written as the same text -/
+theorem second_writing_is_the_first (g : G) : printG (kwNorm g) = printG g := print_stable g
 
 /-- the serialiser's text is the minimally parenthesised rendering -/
-theorem serialiser_writes_reference_rendering (g : G) : printG g = render 1 g := print_eq_render g
+theorem serialiser_writes_reference_rendering (g : G) : printG g = render 1 (kwNorm g) := print_eq_render g
 
 /-! non-vacuity: `a - (b - c)` keeps its parentheses, `(a - b) - c` and `(a * b) + c` lose theirs, `NOT (a AND b)` keeps them -/
 def ia : G := .atom (.ident "a")
@@ -54,5 +62,16 @@ example : printG (.not "NOT" (.bin .and "AND" ia ib)) =
     [t .not "NOT", lp, t .ident "a", t .and "AND", t .ident "b", rp] := by decide +kernel
 example : printG (.bin .cmp "=" (.bin .cmp "<" ia ib) ic) =
     [lp, t .ident "a", t .cmp "<", t .ident "b", rp, t .cmp "=", t .ident "c"] := by decide +kernel
+
+/-- `a NOT BETWEEN (b = c) AND b + c`, `NOT (a IS NULL)` vs `(NOT a) IS NULL`, `a LIKE (b || c)` -/
+example : printG (.between (some "not") "between" "and" ia (.bin .cmp "=" ib ic) (.bin .plus "+" ib ic)) =
+    [t .ident "a", t .not "NOT", t .between "BETWEEN", lp, t .ident "b", t .cmp "=", t .ident "c", rp, t .and "AND",
+     t .ident "b", t .plus "+", t .ident "c"] := by decide +kernel
+example : printG (.isnull "is" none "null" (.not "NOT" ia)) =
+    [lp, t .not "NOT", t .ident "a", rp, t .is "IS", t .null "NULL"] := by decide +kernel
+example : printG (.not "NOT" (.isnull "is" none "null" ia)) =
+    [t .not "NOT", t .ident "a", t .is "IS", t .null "NULL"] := by decide +kernel
+example : printG (.like none (t .like "like") ia (.bin .cat "||" ib ic)) =
+    [t .ident "a", t .like "like", lp, t .ident "b", t .cat "||", t .ident "c", rp] := by decide +kernel
 
 end GoSQLXModel.Props.C06
